@@ -130,6 +130,31 @@ std::string Euler_repr(const Euler<double> &e)
 }
 
 
+//
+// Euler<T> inherits operator== from Vec3<T>, which compares the three
+// angles only.  The scalar binding (equal / notequal below) also compares
+// the rotation order; the array comparison operators must agree with it.
+//
+template <class T>
+struct op_eq<IMATH_NAMESPACE::Euler<T>, IMATH_NAMESPACE::Euler<T>, int>
+{
+    static inline int
+    apply (const IMATH_NAMESPACE::Euler<T>& a, const IMATH_NAMESPACE::Euler<T>& b)
+    {
+        return a.x == b.x && a.y == b.y && a.z == b.z && a.order () == b.order ();
+    }
+};
+
+template <class T>
+struct op_ne<IMATH_NAMESPACE::Euler<T>, IMATH_NAMESPACE::Euler<T>, int>
+{
+    static inline int
+    apply (const IMATH_NAMESPACE::Euler<T>& a, const IMATH_NAMESPACE::Euler<T>& b)
+    {
+        return a.x != b.x || a.y != b.y || a.z != b.z || a.order () != b.order ();
+    }
+};
+
 template <class T>
 static bool
 equal(const Euler<T> &e0, const Euler<T> &e1)
